@@ -4,13 +4,16 @@
 
 #include <Vector/BLF/SingleByteSerialEvent.h>
 
+#include <array>
+
 namespace Vector {
 namespace BLF {
 
 
 void SingleByteSerialEvent::read(AbstractFile & is) {
     is.read(reinterpret_cast<char *>(&byte), sizeof(byte));
-    is.seekg(15, std::ios_base::cur); // due to union
+    std::array<char, 15> unionRemainder {}; // due to union
+    is.read(unionRemainder.data(), static_cast<std::streamsize>(unionRemainder.size())); // not seekg: a seek does not notice a cut-off object
     // @note might be extended in future versions
 }
 
